@@ -9,6 +9,8 @@ NOTE = ("Trusted: the symgo interpreter and its models of reflect, sync, fmt, so
         "must agree; every reported counterexample is replayed natively first.")
 
 CLAIMED = {
+ "C05": "Mix, inverse-mix and the three N-M models over 1..3 (thorough 4) rules, every N/M split and the rejected shapes: saliences, failing subset and error policy are symbolic; per control path the logged events (rule start/end, spawn, WaitGroup, mutex) form an event structure and z3 decides over integer time stamps that in no consistent interleaving a stage-two rule starts before a stage-one rule ends, that nothing runs after the call returns, and the exactly-once / window / stop-continue oracle.",
+ "C11": "All 21 engine execution entry points (and two DAG shapes) are run twice on one engine with symbolic return/fail flags and values per rule (value return, bare return, failing return expression, fault, none; returns nested in if/for/forRange): the result map must hold exactly the rules that ran in that call and reached a return, with their values; accesses to the result map are events in the join query.",
  "C01": "Every binary operator x every ordered pair of the 14 operand kinds, every operator pair (thorough: triple) with and without parentheses, literals, negation, rule locals and the four metadata constants are compiled by the real front end and evaluated symbolically (Expression/MathExpression/Atom/Constant.Evaluate, core.Add/Sub/Mul/Div) with all operand values symbolic; z3 proves equality with a reference generated from an independent precedence parse, and 'error iff zero divisor / ill-typed, never a value'. Bounded in expression size only.",
  "C04": "For rule sets of 1..3 (thorough 4) rules with symbolic int64 saliences, symbolic failing subset and symbolic error-policy flag, every path of BuildRuleFromString's sort/index tail and of Execute / ExecuteWithStopTagDirect / ExecuteSelectedRules / ExecuteSelectedRulesWithControl is executed symbolically from SSA and the order / exactly-once / error-policy oracle is discharged by z3 for all values; outside the bound nothing is claimed.",
 }
